@@ -590,7 +590,8 @@ def decode(img):
     d = Decoder(img)
     try:
         scene = d.run()
-    except (struct.error, IndexError) as e:
-        d.bad("R0", "decoder could not parse the container: %r" % (e,))
+    except (struct.error, IndexError, ValueError, TypeError, AttributeError, KeyError) as e:
+        # hostile / damaged input: not decodable (the caller sees rule R0, never an exception)
+        d.bad("R0", "decoder could not parse the file: %r" % (e,))
         scene = None
     return scene, d.problems
